@@ -9,8 +9,9 @@ CONSTANTS
   CleanupInterval = 2
   Faults = FALSE
   WatermarkFirst = FALSE
+  RefCount = "pair"
 INIT Init
 NEXT Next
 VIEW view
-INVARIANTS TypeOK ReadsFlushed CrashSafe DownSafe OpenNeverFails NoRevival LiveFilesKept
+INVARIANTS TypeOK ReadsFlushed CrashSafe DownSafe OpenNeverFails NoRevival LiveFilesKept RefsExact
 CHECK_DEADLOCK FALSE
